@@ -169,6 +169,12 @@ def oracle_rtte(P):
                 hits.append({"sig": {"oracle": "rtte", "what": "bounds"}, "text": f"RTO {rto} ns outside 200 ms..60 s after {op}"})
             if t[1] == "timeout" and prev is not None and rto != min(2 * prev, 60_000_000_000):
                 hits.append({"sig": {"oracle": "rtte", "what": "doubling"}, "text": f"timeout: RTO {prev} -> {rto}, expected min(2x, 60 s)"})
+            if samples or t[1] == "sample":
+                # "smoothed RTT plus four times its variance (at least the clock granularity)": never below SRTT + 10 ms
+                floor = min(max(rtt + 10_000_000, 200_000_000), 60_000_000_000)
+                if rto < floor:
+                    hits.append({"sig": {"oracle": "rtte", "what": "below_srtt_plus_granularity"},
+                                 "text": f"after {op}: RTO {rto} ns is below SRTT + clock granularity = {rtt} + 10 ms (clamped: {floor} ns)"})
             if t[1] == "sample":
                 samples.append(int(t[2]))
                 if not (min(samples) <= rtt <= max(samples)):
